@@ -23,6 +23,8 @@ CLAIMS['C08'] = dict(text='Bounded model checking of the real JSON string escape
              note='PARTIAL: object-kind trees and whole-tree Stringify->Parse composition are not covered (real HArray<String,Value> is beyond reach of CBMC here); number digits are delegated to C10/C09. N = 4 (quick) / 6 (thorough).', ref='6/C08')
 CLAIMS['C14'] = dict(text='One inductive step per operation on pre-states built through the public API with concrete capacity and symbolic size/contents/arguments, including aliasing arguments: every public operation of Array<int>, Array<Tracked>, String, StringStream, StringView (3 widths) agrees with a plain sequence model (contents, length, terminator, no element lost/duplicated/destroyed twice), and Memory::Copy / SetToZero equal the byte-wise definition for every length 0..80 with guard bytes, in scalar, SSE2 and AVX2 builds.',
              note='Bounded: capacities <= 4 (streams 8), argument lengths <= 3, copy lengths <= 80 bytes. Containers in the scalar build (SIMD builds differ only inside Memory::Copy/SetToZero, checked separately). The quick tier runs one representative per (container, type, operation) group plus a deterministic twelfth of the other variants; thorough runs all 5649.', ref='6/C14')
+CLAIMS['C19'] = dict(text='One inductive step per BigInt operation from an ARBITRARY pre-state satisfying the representation invariant (words symbolic, index symbolic), with symbolic arguments guarded by "the result fits": the invariant is re-established and the value equals a native / unsigned __int128 / word-wise carry-chain reference, no access outside the word array; word sizes 8/16/32/64, widths 32..256 bits. Multiply and Divide are proved over the contract of the double-word helper, and the helper itself (DoubleSize<W,bits>::Multiply/Divide) against native double-width arithmetic: all operands for 8/16/32-bit words, 64-bit Multiply for all operands, 64-bit Divide for each of the 29 divisors the library uses (10^19, 5^0..5^27).',
+             note='Bounded per instantiation (5 quick / 7 thorough). An exactness proof of the 64-bit Divide for ARBITRARY divisors is out of reach of every back end (searched for counterexamples with kissat instead); distributivity / long-division identities used to compose the helper proofs are stated assumptions.', ref='6/C19')
 NA = {}
 def main():
     props = [json.loads(l)['id'] for l in open(os.path.join(ROOT, 'properties.jsonl'))]
